@@ -201,6 +201,20 @@ CLAIMED = {
     note=("Trusted: as C01. Superposition compared at 1e-9 (float64) / 2e-7 (float32) relative."),
     technique="TLA+ model (TLC exhaustive) + spec-generated behaviours replayed on the implementation",
     design_ref="DESIGN.md 4.2, 5 (C06)", engine="injection"),
+ "C13": dict(
+    text=("ConstSignal.tla decides, over integers (1/24 channel), the number of smearing sub-steps max(1, ceil(|drift|/unit)), "
+          "the per-pixel relation between helper and general signal (must-equal everywhere for box / truncated sinc^2; "
+          "within the FWHM around the swept signal centre for gaussian / lorentzian / voigt, equal-or-zero outside) and the "
+          "mirror partner; TLC checks SubstepsPositive, ZeroDriftOneStep, NegDriftIsMirror, CentreMustEqual for every start "
+          "position (inside, on the edge, between channels, outside the band), drift -4..+4 channels/step incl. 0, widths "
+          "0.04..10 channels, five profiles, smearing on/off. Each generated configuration runs the real helper against the "
+          "real general add_signal on a twin frame (3 geometries, both orientations) under TLC's mask, plus the mirror and "
+          "zero-drift identities on the real code."),
+    note=("Trusted: TLC, the general add_signal as reference (C01 decides it), tolerance 1e-9 + 512 ulp(f)/min(width, df); "
+          "box-profile pixels exactly on the discontinuity are not judged; voigt FWHM from the library's own approximation "
+          "rounded down."),
+    technique="TLA+ model (TLC exhaustive) + spec-generated configurations executed by the implementation against its general path",
+    design_ref="DESIGN.md 4.2, 5 (C13)", engine="constsignal"),
 }
 
 NOT_YET = "check not built yet in this round (planned, see DESIGN.md 5); no claim is made"
